@@ -29,7 +29,7 @@ func expectEncoder(t string, ref refCodec) (codecSig, bool) {
 		return codecSig{Form: "fixed", Width: w, Order: "BigEndian"}, true
 	case "signed":
 		if w == 1 {
-			return codecSig{Form: "byte", Width: 1, Conv: "byte"}, true
+			return codecSig{Form: "byte", Width: 1, Conv: "uint8"}, true
 		}
 		return codecSig{Form: "fixed", Width: w, Order: "BigEndian", Conv: fmt.Sprintf("uint%d", 8*w)}, true
 	case "float":
@@ -267,10 +267,10 @@ func prefixSites(p *Prog, r *Report, rule string) {
 	if enc == nil {
 		r.Undecided(rule, "encoder: variable-length prefix scheme", "pkg/entities/ie.go", "encoder not found")
 	} else {
-		schemes := encoderPrefixSchemes(enc)
+		schemes, whys := encoderPrefixSchemesWhy(enc)
 		for _, g := range []string{"GetOctetArrayValue", "GetStringValue"} {
 			s, ok := schemes[g]
-			why := ""
+			why := whys[g]
 			if !ok {
 				why = "no length-prefix selection found for " + g
 			}
@@ -317,27 +317,42 @@ func lengthAccounting(p *Prog, r *Report, rule string) {
 	}
 	// OctetArray fixed branch
 	if f := p.Fn("(*pkg/entities.OctetArrayInfoElement).GetLength"); f != nil {
+		// every exit on which Len is known to be a fixed length (Len < 65535 or Len != 65535) returns int(Len), and there
+		// is such an exit - whichever way the test is spelled (operand order, early return, switch, spliced helper)
 		ok := false
-		eachInstr(f, func(in ssa.Instruction) {
-			rt, ok2 := in.(*ssa.Return)
-			if !ok2 || len(rt.Results) != 1 {
-				return
-			}
-			cv, ok3 := rt.Results[0].(*ssa.Convert)
-			if !ok3 {
-				return
-			}
-			if _, fn, _, ok4 := loadedField(cv.X); !ok4 || fn != "Len" {
-				return
-			}
-			for _, fct := range blockFacts(in.Block()) {
-				if _, fn, _, ok5 := loadedField(fct.X); ok5 && fn == "Len" {
-					if v, ok6 := constInt(fct.Y); ok6 && ((fct.Op == token.LSS && v == 65535) || (fct.Op == token.NEQ && v == 65535)) {
-						ok = true
-					}
+		bad := false
+		lenSym := ""
+		w := &absWalker{MaxPaths: 512}
+		w.OnInstr = func(st *absState, in ssa.Instruction) {
+			if u, ok2 := in.(*ssa.UnOp); ok2 && u.Op == token.MUL {
+				if _, fn, _, ok3 := loadedField(u); ok3 && fn == "Len" {
+					lenSym = st.key(u)
 				}
 			}
-		})
+		}
+		w.OnEnd = func(st *absState, last ssa.Instruction) {
+			rt, ok2 := last.(*ssa.Return)
+			if !ok2 || len(rt.Results) != 1 || lenSym == "" {
+				return
+			}
+			_, hi := st.bounds(lenSym)
+			fixed := hi <= 65534
+			for _, rel := range st.rels {
+				if rel == lenSym+"!=65535" {
+					fixed = true
+				}
+			}
+			l := st.linear(rt.Results[0])
+			returnsLen := l.Sym == lenSym && l.K == 0
+			if fixed && returnsLen {
+				ok = true
+			}
+			if fixed && !returnsLen {
+				bad = true
+			}
+		}
+		w.walk(newAbsState(), f.Blocks[0], 0)
+		ok = ok && !bad && !w.Overflow && !w.Looped
 		r.Check(ok, rule, fnKey(f)+": fixed-length branch returns element.Len", p.pos(f.Pos()), "Len < VariableLength => int(Len)", "a fixed-length octet array does not report its template length", true)
 	}
 	// encoder entry guard: index + GetLength() > len(buffer) => error
